@@ -47,8 +47,8 @@ def run(ctx: core.Ctx) -> None:
     core.require_coverage(agg, ACTIONS, 'MultiSolve')
     ctx.exhaustive = True
     payloads = [{'records': ch, 'all_kinds': not quick, 'seed': ctx.seed} for ch in core.chunks(recs, core.NCPU * 2)]
-    if not quick:  # thorough: all span kinds on an eighth of the records, one kind (rotating) on the rest
-        payloads = [{'records': ch, 'all_kinds': (i % 8 == 0), 'seed': ctx.seed + i} for i, ch in enumerate(core.chunks(recs, core.NCPU * 6))]
+    if not quick:  # thorough: all span kinds on a sixteenth of the records, one kind (rotating) on the rest
+        payloads = [{'records': ch, 'all_kinds': (i % 16 == 0), 'seed': ctx.seed + i} for i, ch in enumerate(core.chunks(recs, core.NCPU * 6))]
     outs = core.run_workers('harness.replay_multisolve', payloads)
     ctx.evaluations += sum(o['n'] for o in outs)
     ctx.nontrivial += sum(o['nontrivial'] for o in outs)
